@@ -35,7 +35,8 @@ ASSUMPTIONS = [
     "or catch bodies (their relative evaluation order would be timing dependent); every call carries a tag literal that makes "
     "call nodes of different expressions distinct",
 ]
-RULE = ("one case = one generated program run once (plus a replay on the same backend for every 4th case). All Argument and "
+RULE = ("one case = one generated program run once (plus a replay on the same backend for every 4th case; for every 3rd case an "
+        "earlier execution on the same backend has already made half of the argument-producing calls, so they are cache hits). All Argument and "
         "ArgumentResult rows of the calls made by `main` are read back as (call, slot, value hash, set of upstream calls) and "
         "compared with the model rows and with the specification (task calls reachable through non-task expressions). "
         "distinct = distinct programs; a program without any task-valued argument is trivial")
@@ -269,6 +270,35 @@ def spec_rows(e, out, seen):
         seen.add(repr(e))
 
 
+def evaluated_calls(e, out, top=True):
+    """calls that the program evaluates as *arguments* (not the outermost ones), failing calls excluded: running them
+    in an earlier execution makes them cache hits in the real run while the calls consuming them are new"""
+    import gm_tasks21 as T
+    k = e[0]
+    if k == "cont":
+        for x in e[1]:
+            evaluated_calls(x, out, top)
+    elif k == "call":
+        if not top and e[1] != "boom":
+            try:
+                T.value_of(e)
+                out.append(e)
+            except T.Boom:
+                pass
+        for a in e[4]:
+            evaluated_calls(a, out, False)
+        for _, a in e[5]:
+            evaluated_calls(a, out, False)
+    elif k == "op":
+        for x in e[2]:
+            evaluated_calls(x, out, False)
+    elif k == "cond":
+        evaluated_calls(e[1], out, False)
+        evaluated_calls(e[2] if T.value_of(e[1]) else e[3], out, False)
+    elif k in ("catch", "tags"):
+        evaluated_calls(e[1], out, False)
+
+
 def kind_of(a, seen):
     """structural class of an argument, for the signature of a violation"""
     def dup_sched(x):
@@ -293,14 +323,26 @@ def rows_of(e):
 
 
 # ------------------------------------------------------------------ one case on the real code
-def run_program(ctx, prog, replay_run=False):
+def run_program(ctx, prog, replay_run=False, warm=False):
     import gm_common as G
     import gm_tasks21 as T
     from redun.backends.db import Argument, CallNode
     import json
     case = {"program": prog}
     with G.instrumented() as (log, watch):
-        run = G.CtlRun(ctx.rng, ctx.rng.choice(["fifo", "lifo", "rand"]))
+        backend = None
+        if warm:
+            # an earlier execution on the same backend that already made the argument-producing calls
+            inner = []
+            evaluated_calls(prog, inner)
+            if inner:
+                run0 = G.CtlRun(ctx.rng, "fifo")
+                backend = run0.backend
+                r0 = run0.run(T.main(("cont", inner[: 1 + len(inner) // 2])))
+                if r0[0] != "ok":
+                    ctx.mismatch("warm-up execution failed (harness)", case, model="ok", impl=repr(r0)[:200])
+                    return None
+        run = G.CtlRun(ctx.rng, ctx.rng.choice(["fifo", "lifo", "rand"]), backend=backend)
         res = run.run(T.main(prog))
         if replay_run:
             run2 = G.CtlRun(ctx.rng, "fifo", backend=run.backend)
@@ -402,12 +444,12 @@ def run(ctx):
         progs.append(gen_program(rng))
     results = []
     for i, p in enumerate(progs):
-        got = run_program(ctx, p, replay_run=(i % 4 == 0))
+        got = run_program(ctx, p, replay_run=(i % 4 == 0), warm=(i % 3 == 1))
         want = rows_of(p)
         kinds = {k for _, k in want.values()}
         ctx.case(key=repr(p) if nontrivial(p) else None, sample={"program": repr(p)[:300], "rows": len(want)},
                  rows=min(len(want) // 4 * 4, 40), defaults="default" in kinds, dup_sched="duplicate-scheduler-expr" in kinds,
-                 recover="recover" in kinds, with_upstream=sum(1 for pr, _ in want.values() if pr) // 3 * 3)
+                 recover="recover" in kinds, warm=(i % 3 == 1), with_upstream=sum(1 for pr, _ in want.values() if pr) // 3 * 3)
         results.append((p, got))
     replies = ctx.model("C21", ["eval F " + to_model(p, None) for p, _ in results])
     for (p, got), reply in zip(results, replies):
